@@ -58,17 +58,27 @@ class Group:
 
     def try_trace(self, desc, fn, *ex_args, **kw):
         """tracing must succeed (definedness obligations).  Returns Traced or None; an exception
-        raised by the code under test for a valid configuration is a violation for ALL values."""
+        raised by the code under test while it is traced (symbolic execution of the source: no values involved)
+        is a violation for ALL values of that configuration; a failure of the encoder is inconclusive."""
         from . import symjax as sj
+        import jax
         self._reset_genjax()
         try:
-            return self.trace(fn, *ex_args, **kw)
-        except sj.Unsupported as e:
-            self._rec(desc, "inconclusive", detail=f"encoder: {e}")
+            pre = jax.make_jaxpr(fn, return_shape=True)(*ex_args)
         except Exception as e:
             tb = traceback.format_exc(limit=6)
             self._rec(desc, "violation", detail=f"{type(e).__name__}: {str(e)[:300]}", replay_kind="raises",
                       tb=tb[-1500:])
+            self._reset_genjax()
+            return None
+        finally:
+            self._reset_genjax()
+        try:
+            return self.trace(fn, *ex_args, pretraced=pre, **kw)
+        except sj.Unsupported as e:
+            self._rec(desc, "inconclusive", detail=f"encoder: {e}")
+        except Exception as e:
+            self._rec(desc, "inconclusive", detail=f"encoder error: {type(e).__name__}: {str(e)[:200]} {traceback.format_exc(limit=4)[-400:]}")
         finally:
             self._reset_genjax()
         return None
